@@ -126,7 +126,9 @@ pub fn run(args: &Args) {
             for k in 0..vols {
                 // elevation sequence: single, SAILS-like repeats, up to 255 elevations
                 let els: Vec<u64> = match k % 5 { 0 => vec![1 + rng.below(255)], 1 => vec![1, 2, 1, 3, 4, 1, 5], 2 => (1..=(if args.thorough && k % 10 == 2 { 255 } else { 40 })).collect(), _ => crate::sweep::gen_elevations(&mut rng, 12).into_iter().collect() };
-                let per = if args.thorough && k % 8 == 1 { 720 } else { 1 + rng.below(if args.thorough { 40 } else { 30 }) };
+                // volume 9 of every run: one elevation of 950 radials (longer than any real sweep)
+                let els: Vec<u64> = if k == 9 { vec![els.first().copied().unwrap_or(5)] } else { els };
+                let per = if k == 9 { 950 } else if args.thorough && k % 8 == 1 { 720 } else { 1 + rng.below(if args.thorough { 40 } else { 30 }) };
                 let mut stream: Vec<Sym> = Vec::new();
                 let mut id = 1u64;
                 let vols_at = rng.below(3);
